@@ -132,7 +132,7 @@ def evaluate_on_grid(
     return out
 
 
-@njit(parallel=True)
+@njit
 def hist2d(x, y, values, xmin, xmax, nx, ymin, ymax, ny):
     out = np.zeros(shape=(values.shape[0], ny, nx), dtype=np.float64)
     counts = np.zeros(shape=(ny, nx), dtype=np.int64)
